@@ -55,27 +55,44 @@ theorem stGet_none_find_some (incl : Bool) (s : Store) (now : Nat) (k : Key) (e 
   simp [stGet, he, alive] at h
   omega
 
-def BurnPc.took : BurnPc → Bool | .atBurn o => o.took | .done o => o.took | _ => false
+def BurnPc.took : BurnPc → Bool | .atExt o => o.took | .atBurn o => o.took | .done o => o.took | _ => false
 def BurnPc.inCrit : BurnPc → Bool | .atCall => true | .atDel _ => true | _ => false
 def MarkPc.inCrit : MarkPc → Bool | .atCall => true | .atPut _ => true | _ => false
 def Thread.inCrit (cfg : Cfg) : Thread → Bool
   | .burn _ pc _ => cfg.gadLocks && pc.inCrit
   | .mark r pc _ => cfg.markLocks r.kind && pc.inCrit
 
-theorem afterGad_inCrit (r : BurnReq) (v : Option String) : (afterGad r v).inCrit = false := by
-  unfold afterGad; split <;> rfl
+theorem finishBurn_inCrit (r : BurnReq) (o : Outcome) : (finishBurn r o).inCrit = false := by
+  unfold finishBurn; split <;> rfl
+
+theorem finishBurn_took (r : BurnReq) (o : Outcome) : (finishBurn r o).took = o.took := by
+  unfold finishBurn; split <;> rfl
+
+theorem finishBurn_ne_atDel (r : BurnReq) (o : Outcome) (v : String) : finishBurn r o ≠ .atDel v := by
+  unfold finishBurn; split <;> simp
+
+theorem afterGad_ne_atDel (cfg : Cfg) (r : BurnReq) (x : Option String) (v : String) : afterGad cfg r x ≠ .atDel v := by
+  unfold afterGad; split
+  · simp
+  · exact finishBurn_ne_atDel _ _ _
+
+theorem afterGad_inCrit (cfg : Cfg) (r : BurnReq) (v : Option String) : (afterGad cfg r v).inCrit = false := by
+  unfold afterGad; split
+  · rfl
+  · exact finishBurn_inCrit _ _
 
 theorem stepBurn_lock (cfg : Cfg) (st : Store) (now : Nat) (lock : Option Nat) (i : Nat) (r : BurnReq) (pc : BurnPc)
     (h : cfg.gadLocks = true → pc.inCrit = true → lock = some i) :
     (cfg.gadLocks = true → (stepBurn cfg st now lock i r pc).1.inCrit = true → (stepBurn cfg st now lock i r pc).2.2 = some i) ∧
     ((stepBurn cfg st now lock i r pc).2.2 = lock ∨ (lock = none ∧ (stepBurn cfg st now lock i r pc).2.2 = some i)
       ∨ (lock = some i ∧ (stepBurn cfg st now lock i r pc).2.2 = none)) := by
-  have ha := afterGad_inCrit r
+  have ha := afterGad_inCrit cfg r
+  have hfc := finishBurn_inCrit r
   cases hl : cfg.gadLocks <;> cases pc <;> simp only [stepBurn] <;> (repeat' split) <;>
     simp_all [unlock, BurnPc.inCrit.eq_1, BurnPc.inCrit.eq_2, BurnPc.inCrit.eq_3]
 
-theorem afterGad_took (r : BurnReq) (v : Option String) : (afterGad r v).took = v.isSome := by
-  cases v <;> unfold afterGad verdict <;> (repeat' split) <;> simp_all [BurnPc.took, Outcome.took]
+theorem afterGad_took (cfg : Cfg) (r : BurnReq) (v : Option String) : (afterGad cfg r v).took = v.isSome := by
+  cases v <;> unfold afterGad finishBurn verdict <;> (repeat' split) <;> simp_all [BurnPc.took, Outcome.took]
 
 theorem stepBurn_store (cfg : Cfg) (st : Store) (now : Nat) (lock : Option Nat) (i : Nat) (r : BurnReq) (pc : BurnPc) :
     (stepBurn cfg st now lock i r pc).2.1 = st ∨ (stepBurn cfg st now lock i r pc).2.1 = stErase st r.key := by
@@ -88,7 +105,8 @@ theorem stepBurn_newTaker (cfg : Cfg) (st : Store) (now : Nat) (lock : Option Na
     (stepBurn cfg st now lock i r pc).2.1 = stErase st r.key ∧
     ((stGet cfg.expInclusive st now r.key).isSome = true ∨
      (∃ v, pc = .atDel v ∧ ¬(cfg.gadRawDelete = true ∧ cfg.strictDelete = true))) := by
-  have ha := afterGad_took r
+  have ha := afterGad_took cfg r
+  have hft := finishBurn_took r
   cases pc <;> simp only [stepBurn] at h1 ⊢ <;> (repeat' split at h1) <;> (repeat' split) <;>
     simp_all [BurnPc.took, Outcome.took]
   rename_i h
@@ -97,7 +115,8 @@ theorem stepBurn_newTaker (cfg : Cfg) (st : Store) (now : Nat) (lock : Option Na
 theorem stepBurn_newMid (cfg : Cfg) (st : Store) (now : Nat) (lock : Option Nat) (i : Nat) (r : BurnReq) (pc : BurnPc) (v : String)
     (h1 : (stepBurn cfg st now lock i r pc).1 = .atDel v) :
     stGet cfg.expInclusive st now r.key = some v ∧ cfg.gad ≠ .singleCall := by
-  have ha : ∀ x, afterGad r x ≠ .atDel v := by intro x; unfold afterGad; split <;> simp
+  have ha : ∀ x, afterGad cfg r x ≠ .atDel v := fun x => afterGad_ne_atDel cfg r x v
+  have hfd : ∀ o, finishBurn r o ≠ .atDel v := fun o => finishBurn_ne_atDel r o v
   cases pc <;> simp only [stepBurn] at h1 <;> (repeat' split at h1) <;> simp_all
 
 
@@ -141,7 +160,8 @@ theorem stepBurn_done (cfg : Cfg) (st : Store) (now : Nat) (lock : Option Nat) (
 theorem stepBurn_newTaker_crit (cfg : Cfg) (st : Store) (now : Nat) (lock : Option Nat) (i : Nat) (r : BurnReq) (pc : BurnPc)
     (h0 : pc.took = false) (h1 : (stepBurn cfg st now lock i r pc).1.took = true) (hl : cfg.gadLocks = true) :
     pc.inCrit = true := by
-  have ha := afterGad_took r
+  have ha := afterGad_took cfg r
+  have hft := finishBurn_took r
   cases pc <;> simp only [stepBurn] at h1 <;> (repeat' split at h1) <;>
     simp_all [BurnPc.took, Outcome.took, BurnPc.inCrit, Cfg.gadLocks]
 
@@ -689,16 +709,19 @@ def Thread.idle : Thread → Bool
   | .burn _ (.atDel _) _ => false
   | t => !t.took
 
+theorem burn_idle_of (r : BurnReq) (pc : BurnPc) (f : Nat) (h1 : pc.took = false) (h2 : ∀ v, pc ≠ .atDel v) :
+    (Thread.burn r pc f).idle = true := by
+  cases pc <;> simp_all [Thread.idle, Thread.took, BurnPc.took]
+
 theorem stepBurn_idle_dead (cfg : Cfg) (st : Store) (now : Nat) (lock : Option Nat) (i : Nat) (r : BurnReq) (pc : BurnPc) (f : Nat)
     (hd : stGet cfg.expInclusive st now r.key = none) (hi : (Thread.burn r pc f).idle = true) :
     (stepThread cfg st now lock i (Thread.burn r pc f)).1.idle = true := by
-  have ha : (afterGad r none).took = false := by rw [afterGad_took]; rfl
-  have hb : ∀ v, afterGad r none ≠ .atDel v := by intro v; unfold afterGad; split <;> simp
+  have ha : (afterGad cfg r none).took = false := by rw [afterGad_took]; rfl
+  have hb : ∀ v, afterGad cfg r none ≠ .atDel v := fun v => afterGad_ne_atDel cfg r none v
+  have hft := finishBurn_took r
+  have hfd : ∀ o v, finishBurn r o ≠ .atDel v := finishBurn_ne_atDel r
   cases pc <;> simp only [stepThread, stepBurn, hd] <;> (repeat' split) <;>
-    simp_all [Thread.idle, Thread.took, BurnPc.took, Outcome.took]
-  all_goals
-    generalize hg : afterGad r none = pc' at ha hb
-    cases pc' <;> simp_all
+    (apply burn_idle_of <;> simp_all [Thread.idle, Thread.took, BurnPc.took, Outcome.took])
 
 structure DInv (cfg : Cfg) (k : Key) (i : Nat) (w : World) : Prop where
   dead : stGet cfg.expInclusive w.store w.now k = none
@@ -758,7 +781,11 @@ theorem idle_not_took (t : Thread) (h : t.idle = true) : t.took = false := by
 theorem stepBurn_code_done (cfg : Cfg) (st : Store) (now : Nat) (lock : Option Nat) (i : Nat) (r : BurnReq) (pc : BurnPc) (o : Outcome)
     (hc : r.kind = .code) (hf : r.failDel = false) (h : (stepBurn cfg st now lock i r pc).1 = .done o) :
     pc = .done o ∨ (stepBurn cfg st now lock i r pc).2.1 = stErase st r.key := by
-  have ha : ∀ v, afterGad r v ≠ .done o := by intro v; simp [afterGad, hc]
+  have hfb : ∀ o', finishBurn r o' ≠ .done o := by intro o'; simp [finishBurn, hc]
+  have ha : ∀ v, afterGad cfg r v ≠ .done o := by
+    intro v; unfold afterGad; split
+    · simp
+    · exact hfb _
   cases pc <;> simp only [stepBurn] at h ⊢ <;> (repeat' split at h) <;> simp_all
 
 /-- every finished authorization-code request (whose Deletes reached the store) has left the store without the code -/
@@ -1117,15 +1144,14 @@ theorem stepThread_faulty_safe (cfg : Cfg) (st : Store) (now : Nat) (lock : Opti
     (stepThread cfg st now lock i t).1.faulty = true ∧ (stepThread cfg st now lock i t).1.safe = true := by
   cases t with
   | burn r pc f =>
-    have ha : (afterGad r none).took = false := by rw [afterGad_took]; rfl
-    have hb : ∀ v, afterGad r none ≠ .atDel v := by intro v; unfold afterGad; split <;> simp
+    have ha : (afterGad cfg r none).took = false := by rw [afterGad_took]; rfl
+    have hb : ∀ v, afterGad cfg r none ≠ .atDel v := fun v => afterGad_ne_atDel cfg r none v
+    have hft := finishBurn_took r
+    have hfd : ∀ o v, finishBurn r o ≠ .atDel v := finishBurn_ne_atDel r
     simp only [Thread.faulty] at hf
     refine ⟨by simp [stepThread, Thread.faulty, hf], ?_⟩
-    cases pc <;> simp only [stepThread, stepBurn, hf] <;> (repeat' split) <;>
-      simp_all [Thread.safe, Thread.idle, Thread.took, Outcome.took]
-    all_goals
-      generalize hg : afterGad r none = pc' at ha hb
-      cases pc' <;> simp_all [BurnPc.took, Outcome.took]
+    cases pc <;> simp only [stepThread, stepBurn, hf, Thread.safe] <;> (repeat' split) <;>
+      (apply burn_idle_of <;> simp_all [Thread.safe, Thread.idle, Thread.took, BurnPc.took, Outcome.took])
   | mark r pc f =>
     simp only [Thread.faulty] at hf
     refine ⟨by simp [stepThread, Thread.faulty, hf], ?_⟩
